@@ -78,6 +78,28 @@ def find_function(tree, qual):
     return node if isinstance(node, ast.FunctionDef) else None
 
 
+def live_function(rel, qual):
+    """the function object the name is bound to NOW (an alias, a moved or wrapped function still
+    resolves), parsed from its own source; None when that is not possible"""
+    import importlib
+    import inspect
+    import textwrap
+    try:
+        obj = importlib.import_module(rel[:-3].replace("/", "."))
+        for part in qual.split("."):
+            obj = getattr(obj, part)
+        obj = inspect.unwrap(obj)
+        if isinstance(obj, (staticmethod, classmethod)):
+            obj = obj.__func__
+        tree = ast.parse(textwrap.dedent(inspect.getsource(obj)))
+        fn = next((n for n in tree.body if isinstance(n, ast.FunctionDef)), None)
+        if fn is not None:
+            fn._first_line = obj.__code__.co_firstlineno
+        return fn
+    except Exception:  # noqa: BLE001
+        return None
+
+
 def root_name(node):
     while isinstance(node, (ast.Subscript, ast.Attribute)):
         node = node.value
@@ -267,10 +289,12 @@ def regenerate():
     os.makedirs(GEN_DIR, exist_ok=True)
     defs, ok, listing = [], True, []
     for rel, qual in ANCHORS:
-        try:
-            fn = find_function(ast.parse(src(rel)), qual)
-        except Exception:  # noqa: BLE001
-            fn = None
+        fn = live_function(rel, qual)          # dynamic: whatever the name is bound to in the live module
+        if fn is None:
+            try:
+                fn = find_function(ast.parse(src(rel)), qual)   # static fallback
+            except Exception:  # noqa: BLE001
+                fn = None
         if fn is None:
             ok = False
             defs.append(f"/-- {rel}:{qual} NOT FOUND -/\ndef {lean_name(qual)} : Pattern := "
@@ -278,7 +302,7 @@ def regenerate():
             continue
         ts = Analyser(fn).targets()
         body = ", ".join(f"⟨{lstr(r or '?')}, {lstr(k)}, [{', '.join('.' + i for i in ins)}]⟩" for r, k, ins in ts)
-        defs.append(f"/-- {rel}:{fn.lineno} -/\ndef {lean_name(qual)} : Pattern := ⟨{lstr(qual)}, [{body}]⟩")
+        defs.append(f"/-- {rel}:{getattr(fn, '_first_line', fn.lineno)} -/\ndef {lean_name(qual)} : Pattern := ⟨{lstr(qual)}, [{body}]⟩")
         listing.append(lean_name(qual))
     text = (f"-- GENERATED by harness/translate_c03.py from {common.REPO} -- do not edit\n"
             f"import Bermuda.Model.Heap\n"
